@@ -46,15 +46,11 @@ theorem gidsFrom_pairwise (tbl : Opcode → Eff) (is : List Instr) (g : Nat) :
       simp only [hs, if_true] at this
       omega
 
-/-- **Group-id invariant**: in any selection of the numbered instructions (in particular the ones that
-survive dead-code elimination), two instructions with the same group id have no `sideEffectStrict`
-instruction between them, and the earlier one is not `sideEffectStrict` itself. -/
-theorem same_gid_no_strict_between (tbl : Opcode → Eff) (is : List Instr) (g0 : Nat) (keep : Instr × Nat → Bool)
-    (l1 l2 l3 : List (Instr × Nat)) (a b : Instr × Nat)
-    (h : (is.zip (gidsFrom tbl g0 is)).filter keep = l1 ++ a :: l2 ++ b :: l3) (hg : a.2 = b.2) :
+/-- in a list ordered by `GidOrder`, two entries with the same group id have no `sideEffectStrict` instruction
+between them, and the earlier one is not `sideEffectStrict` itself -/
+theorem no_strict_between_of_pairwise (tbl : Opcode → Eff) {l1 l2 l3 : List (Instr × Nat)} {a b : Instr × Nat}
+    (hp : (l1 ++ a :: l2 ++ b :: l3).Pairwise (GidOrder tbl)) (hg : a.2 = b.2) :
     tbl a.1.opcode ≠ .strict ∧ ∀ k ∈ l2, tbl k.1.opcode ≠ .strict := by
-  have hp : (l1 ++ a :: l2 ++ b :: l3).Pairwise (GidOrder tbl) := by
-    rw [← h]; exact (gidsFrom_pairwise tbl is g0).filter _
   have hp2 : (a :: (l2 ++ b :: l3)).Pairwise (GidOrder tbl) := by
     have : l1 ++ a :: l2 ++ b :: l3 = l1 ++ (a :: (l2 ++ b :: l3)) := by simp
     rw [this] at hp
@@ -71,6 +67,15 @@ theorem same_gid_no_strict_between (tbl : Opcode → Eff) (is : List Instr) (g0 
       have := (List.pairwise_append.mp hrest).2.2 k hk b (List.mem_cons_self ..)
       exact this.2 hs
     omega
+
+/-- **Group-id invariant**: in any selection of the numbered instructions (in particular the ones that
+survive dead-code elimination), two instructions with the same group id have no `sideEffectStrict`
+instruction between them, and the earlier one is not `sideEffectStrict` itself. -/
+theorem same_gid_no_strict_between (tbl : Opcode → Eff) (is : List Instr) (g0 : Nat) (keep : Instr × Nat → Bool)
+    (l1 l2 l3 : List (Instr × Nat)) (a b : Instr × Nat)
+    (h : (is.zip (gidsFrom tbl g0 is)).filter keep = l1 ++ a :: l2 ++ b :: l3) (hg : a.2 = b.2) :
+    tbl a.1.opcode ≠ .strict ∧ ∀ k ∈ l2, tbl k.1.opcode ≠ .strict :=
+  no_strict_between_of_pairwise tbl (by rw [← h]; exact (gidsFrom_pairwise tbl is g0).filter _) hg
 
 /-- the per-block numbering of `dceWithGids` is the numbering of the concatenated instructions -/
 theorem gidsFrom_append (tbl : Opcode → Eff) (l1 l2 : List Instr) (g : Nat) :
@@ -90,5 +95,42 @@ theorem gidsBlocks_flatten (tbl : Opcode → Eff) (Bs : List Block) (g : Nat) :
   | nil => simp [gidsBlocks, gidsFrom]
   | cons B Bs ih =>
     simp only [gidsBlocks, List.flatten_cons, List.flatMap_cons, gidsFrom_append, ih]
+
+/-- the per-block pairs of `dceWithGids`, concatenated, are a selection of the numbering of all instructions -/
+theorem zip_gidsBlocks_flatMap {β} (tbl : Opcode → Eff) (F : List (Instr × Nat) → List β)
+    (hF : ∀ l1 l2, F (l1 ++ l2) = F l1 ++ F l2) (Bs : List Block) (g : Nat) :
+    (Bs.zip (gidsBlocks tbl g Bs)).flatMap (fun p => F (p.1.instrs.zip p.2)) =
+      F ((Bs.flatMap (·.instrs)).zip (gidsFrom tbl g (Bs.flatMap (·.instrs)))) := by
+  induction Bs generalizing g with
+  | nil =>
+    have := hF [] []
+    simp only [List.append_nil] at this
+    have hnil : F [] = [] := by
+      cases h : F [] with
+      | nil => rfl
+      | cons x xs => rw [h] at this; simp at this
+    simp [gidsBlocks, gidsFrom, hnil]
+  | cons B Bs ih =>
+    simp only [gidsBlocks, List.zip_cons_cons, List.flatMap_cons, gidsFrom_append]
+    rw [List.zip_append (by rw [gidsFrom_length]), hF, ih]
+
+theorem dceWithGids_pairwise (f : Func) :
+    ((dceWithGids f).flatMap (·.2)).Pairwise (GidOrder sideEffect) := by
+  have hflat : (dceWithGids f).flatMap (·.2) =
+      (((f.validBlocks.flatMap (·.instrs)).zip (gidsFrom sideEffect 0 (f.validBlocks.flatMap (·.instrs)))).filter
+          (fun p => keepOf sideEffect (liveSet sideEffect f) p.1)).map
+        (fun p => (p.1.mapOperands (res f.alias), p.2)) := by
+    simp only [dceWithGids, List.flatMap_map]
+    exact zip_gidsBlocks_flatMap sideEffect
+      (fun l => (l.filter (fun p => keepOf sideEffect (liveSet sideEffect f) p.1)).map
+        (fun p => (p.1.mapOperands (res f.alias), p.2)))
+      (fun l1 l2 => by simp) f.validBlocks 0
+  rw [hflat]
+  apply List.Pairwise.map _ _ ((gidsFrom_pairwise sideEffect _ 0).filter _)
+  intro a b hab
+  simp only [GidOrder] at hab ⊢
+  have h1 : (a.1.mapOperands (res f.alias)).opcode = a.1.opcode := by cases a.1 <;> rfl
+  rw [h1]
+  exact hab
 
 end Wz.Model.SsaPass
